@@ -6,7 +6,7 @@ META = {
     "technique": "Lean 4 theorems over executable models of protocol/listoffsets Split/Merge (entries exactness by induction over the positional results; grouping+sorting shown to be a permutation) and of Conn.Seek (equality with an independent reference for every whence mode); model↔code correspondence at function level (real Split/Merge on scripted part results) and end to end (Client.ListOffsets/OffsetFetch/OffsetCommit/ConsumerOffsets/Metadata through a real Transport, Conn.ReadFirstOffset/ReadLastOffset/ReadOffset/ReadOffsets/Seek/ReadPartitions over net.Pipe) against an in-process multi-broker fake cluster whose state is the reference",
     "level_claimed": {
         "category": "proof",
-        "text": "Kernel-checked for all requests and all per-part outcomes: Split yields one single-partition request per requested entry; the merged response holds exactly one entry per requested (topic, partition, timestamp) — the leader's sub-result with the requested timestamp restored, or the UNKNOWN placeholder of that partition when its part failed — as a permutation (nothing lost, duplicated or altered by grouping and sorting); a failed part changes its own entry only; all parts failed → the first error; merged throttle = maximum. Conn.Seek equals the reference in all four whence modes with and without SeekDontCheck (designated position, bounds check against the broker's first/last offsets exactly when the mode demands it, offset unchanged on failure). mapping_exact_* theorems over Model/Mappings.lean: OffsetFetch (coordinator state → answer → user response = the state per requested partition, errors on their own entry), OffsetCommit (every commit reaches the wire unchanged; per-partition errors come back), ConsumerOffsets, Metadata and ReadPartitions (leader/replicas/ISR resolve to exactly the listed brokers, placeholders for unlisted ids, order and fields kept), and one step of Client.ListOffsets's fold (an entry updates its own partition's record only). These small models are tied to the code by the end-to-end correspondence against the fake cluster.",
+        "text": "Kernel-checked for all requests and all per-part outcomes: Split yields one single-partition request per requested entry; the merged response holds exactly one entry per requested (topic, partition, timestamp) — the leader's sub-result with the requested timestamp restored, or the UNKNOWN placeholder of that partition when its part failed — as a permutation (nothing lost, duplicated or altered by grouping and sorting); a failed part changes its own entry only; all parts failed → the first error; merged throttle = maximum. Conn.Seek — its body translated from conn.go by symbolic execution into a decision tree on every run (seek_src_eq, seek_src_correct) — equals the reference in all four whence modes with and without SeekDontCheck (designated position, bounds check against the broker's first/last offsets exactly when the mode demands it, offset unchanged on failure). mapping_exact_* theorems over Model/Mappings.lean: OffsetFetch (coordinator state → answer → user response = the state per requested partition, errors on their own entry), OffsetCommit (every commit reaches the wire unchanged; per-partition errors come back), ConsumerOffsets, Metadata and ReadPartitions (leader/replicas/ISR resolve to exactly the listed brokers, placeholders for unlisted ids, order and fields kept), Client.ListOffsets's fold per step and as a whole (clientApply_untouched, clientListOffsets_total: no panic, untouched partitions keep their record), ReadPartitions' error scope and topic selection, ReadOffsets. Constants, the Merge placeholder, sort keys and Split fields are regenerated from the source (Gen/Offsets.lean). These small models are tied to the code by the end-to-end correspondence against the fake cluster.",
         "design_ref": "DESIGN.md §7 C19",
     },
     "level_note": "Partial: the mapping models (Model/Mappings.lean) are hand-written and tied by end-to-end correspondence only (no F-level op per mapping function); Client.ListOffsets's whole fold is proved per step (mapping_exact_listOffsets_step), not as one closed form; Go maps require distinct topic names / broker ids / partition ids (hypotheses of the theorems). Trusted: Lean kernel; propext/Classical.choice/Quot.sound; sort.Slice modelled as a stable insertion sort (order inside (Partition, Offset) ties is unspecified in Go; comparisons canonicalise); int64 arithmetic modelled on Int (no overflow); the fake cluster's ListOffsets semantics (Spec/Offsets.listOffsetAnswer) transcribed from the Kafka protocol guide; the fake cluster and canonicalisation.",
@@ -23,6 +23,12 @@ def run(ctx):
         "Client.ListOffsets keeps one timestamp per offset (map keyed by offset): two time queries resolving to the same offset report one of the requested timestamps",
     ]
     broken = []
+    ok, log = ctx.extract("offsets", ["lean/KafkaVerif/Gen/Offsets.lean"])
+    if not ok:
+        broken.append({"kind": "obligation", "name": "translator go/extract offsets", "detail": log[-1500:]})
+    ok2, log2 = ctx.extract("mappings", ["lean/KafkaVerif/Gen/Mappings.lean"])
+    if not ok2:
+        broken.append({"kind": "obligation", "name": "translator go/extract mappings", "detail": log2[-1500:]})
     res = ctx.prove(MODULE)
     if not res["ok"]:
         broken.append({"kind": "obligation", "theorems": res["failed"], "detail": res["reasons"][:10]})
